@@ -247,6 +247,10 @@ TMove ==
           \/ /\ "holder" \notin chk /\ cl.op = "maint" /\ holder[i] # NoC /\ holder[i] \notin dead
              /\ \E pl \in Cats : ReturnHeld(holder[i], i, pl)
              /\ UNCHANGED <<calls, taint>>
+          \* C12: a dead-lettered message stays retrievable: a consumer of the dead category never drops it for being overdue (clause `ttl')
+          \/ /\ "ttl" \notin chk /\ Ev.c # 0 /\ Held(Ev.c, i) /\ ~deliv[i] /\ cons[Ev.c].cat = "x" /\ Overdue(i)
+             /\ st' = [st EXCEPT ![i] = "gone"] /\ loc' = [loc EXCEPT ![i] = Zero] /\ holder' = [holder EXCEPT ![i] = NoC]
+             /\ UNCHANGED <<now, meta, origin, deliv, ret, cons, norder, transit, pend, calls, taint>>
           \* C14: settling one message (ack / nack / reject / requeue) never takes another one away from its holder (clause `holder')
           \/ /\ "holder" \notin chk /\ cl.op \in {"ack", "nack", "reject", "requeue"} /\ cl.i # i /\ holder[i] # NoC /\ loc[i] = U("p")
              /\ \E pl \in Cats : ReturnHeld(holder[i], i, pl)
